@@ -75,6 +75,13 @@ class Layouts:
             inner = self.step_of_call(ap) if ap[0] == "call" else None
             if inner is not None and peel(inner[1]) == CUR:
                 return ("closure", v[1], inner[0], v[2])
+            if ap[0] == "phi" and ap[1] and all(peel(m)[0] == "call" for m in ap[1]):
+                # `match .. { A => P(i, x), B => P(i, y) }`: the same parser applied on every arm
+                inners = [self.step_of_call(peel(m)) for m in ap[1]]
+                if all(x is not None and peel(x[1]) == CUR for x in inners):
+                    keys = set((x[0][0], x[0][2] if x[0][0] == "struct" else term_s(x[0])) for x in inners)
+                    if len(keys) == 1:
+                        return ("closure", v[1], inners[0][0], v[2])
             return ("closure", v[1], ("unknown", canon(applied)[:300]), v[2])
         if v[0] == "call" and v[2] is not None:
             c = v[2]
